@@ -648,6 +648,41 @@ def gen_C06(rng, tier):
             h.pushrun(h.last() + rng.choice([1, 70000]), 1, 3, 3)
             h.op("files")
         out.append((f"big-p{p}", h.script()))
+    # directed: the backwards window scan for the last full timestamp.  The last section is
+    # placed at every line offset around k windows before the end of the data, the index is
+    # intact / lags by its last entry / is missing.
+    WINDOW = 10000
+    for p in ([8, 4] if tier == "quick" else [8, 4, 5, 16, 0, 2]):
+        ls = p + 2
+        wl = -(-WINDOW // ls)            # lines per window (window is rounded up to whole lines)
+        sweep = [wl + d for d in range(-3, 4)] + ([2 * wl + d for d in range(-3, 4)] if tier != "quick" or p == 8 else [])
+        h = Hist(p)
+        h.new()
+        h.pushrun(5, 1, wl + wl // 2, 3)
+        h.op("close")
+        h.op("save 0")
+        base_ts = list(h.ts)
+        base_state = (h.full, h.off, list(h.sections))
+        for n in sweep:
+            for ix in ["lag", "rm", "intact"]:
+                h.op("restore 0")
+                h.ts = list(base_ts)
+                h.full, h.off, h.sections = base_state[0], base_state[1], list(base_state[2])
+                h.open()
+                h.pushrun(h.last() + 100000, 1, n, 7)
+                h.op("close")
+                if ix == "lag":
+                    h.op(f"cut index {4 + 16 * (len(h.sections) - 1)}")
+                elif ix == "rm":
+                    h.op("rm index")
+                h.open()
+                h.op("files")
+                h.op("len")
+                h.op(f"read_all s=I:{h.last() - 2} e=U")
+                h.pushrun(h.last() + 1, 1, 2, 9)
+                h.op("close")
+                h.op("files")
+        out.append((f"window-sweep-p{p}", h.script()))
     for h0 in _histories(rng, tier, PAYLOADS_SMALL + [16]):
         h = Hist(h0.p, hdr=h0.hdr)
         h.new()
